@@ -6,7 +6,9 @@
 (*           validation verdict and a re-fit), "model" (fitted instance), "skipped" (a value  *)
 (*           the code documents as not serialisable: the serialiser must refuse it)           *)
 (*   gen   : generic over the float type (both f32 and f64 are exercised)                      *)
-(*   nvar  : number of configurations (variants / hyper-parameter sets / invalid sets)        *)
+(*   nvar  : number of configurations (variants / hyper-parameter sets / invalid sets /        *)
+(*           boundary values of the legal ranges / post-fit setters and public fields moved    *)
+(*           to boundary values before the round trip)                                        *)
 (*   eq    : PartialEq is defined -> original == restored is one more observation             *)
 (*   fnv   : configurations that carry a function-pointer tokenizer (not serialisable)        *)
 (*   rearm : the tokenizer function can be set again on a restored value                      *)
@@ -27,11 +29,11 @@ T(name, role, gen, nvar, eq, fnv, rearm, wide) ==
 Catalogue == <<
   T("Error", "plain", FALSE, 5, FALSE, {}, FALSE, FALSE),
   T("Error.NdShape", "skipped", FALSE, 1, FALSE, {}, FALSE, FALSE),
-  T("PlattError", "plain", FALSE, 6, FALSE, {}, FALSE, FALSE),
+  T("PlattError", "plain", FALSE, 9, FALSE, {}, FALSE, FALSE),
   T("L1Dist", "plain", FALSE, 1, TRUE, {}, FALSE, FALSE),
   T("L2Dist", "plain", FALSE, 1, TRUE, {}, FALSE, FALSE),
   T("LInfDist", "plain", FALSE, 1, TRUE, {}, FALSE, FALSE),
-  T("LpDist", "plain", TRUE, 2, TRUE, {}, FALSE, FALSE),
+  T("LpDist", "plain", TRUE, 5, TRUE, {}, FALSE, FALSE),
   T("KdTree", "plain", FALSE, 1, TRUE, {}, FALSE, FALSE),
   T("BallTree", "plain", FALSE, 1, TRUE, {}, FALSE, FALSE),
   T("LinearSearch", "plain", FALSE, 1, TRUE, {}, FALSE, FALSE),
@@ -40,16 +42,16 @@ Catalogue == <<
   T("Optics", "plain", FALSE, 1, TRUE, {}, FALSE, FALSE),
   T("GmmCovarType", "plain", FALSE, 1, TRUE, {}, FALSE, FALSE),
   T("GmmInitMethod", "plain", FALSE, 2, TRUE, {}, FALSE, FALSE),
-  T("KMeansInit", "plain", TRUE, 4, TRUE, {}, FALSE, FALSE),
-  T("KMeansParams", "params", TRUE, 7, TRUE, {}, FALSE, TRUE),
-  T("KMeansValidParams", "params", TRUE, 4, TRUE, {}, FALSE, TRUE),
+  T("KMeansInit", "plain", TRUE, 5, TRUE, {}, FALSE, FALSE),
+  T("KMeansParams", "params", TRUE, 8, TRUE, {}, FALSE, TRUE),
+  T("KMeansValidParams", "params", TRUE, 5, TRUE, {}, FALSE, TRUE),
   T("KMeans", "model", TRUE, 6, TRUE, {}, FALSE, TRUE),
-  T("GmmParams", "params", TRUE, 4, TRUE, {}, FALSE, TRUE),
-  T("GmmValidParams", "params", TRUE, 2, TRUE, {}, FALSE, TRUE),
+  T("GmmParams", "params", TRUE, 5, TRUE, {}, FALSE, TRUE),
+  T("GmmValidParams", "params", TRUE, 3, TRUE, {}, FALSE, TRUE),
   T("GaussianMixtureModel", "model", TRUE, 2, TRUE, {}, FALSE, TRUE),
-  T("DbscanValidParams", "params", TRUE, 3, TRUE, {}, FALSE, FALSE),
-  T("OpticsParams", "params", TRUE, 4, TRUE, {}, FALSE, FALSE),
-  T("OpticsValidParams", "params", TRUE, 2, TRUE, {}, FALSE, FALSE),
+  T("DbscanValidParams", "params", TRUE, 4, TRUE, {}, FALSE, FALSE),
+  T("OpticsParams", "params", TRUE, 5, TRUE, {}, FALSE, FALSE),
+  T("OpticsValidParams", "params", TRUE, 3, TRUE, {}, FALSE, FALSE),
   T("OpticsAnalysis", "model", TRUE, 2, TRUE, {}, FALSE, FALSE),
   T("OpticsSample", "model", TRUE, 2, TRUE, {}, FALSE, FALSE),
   T("Link", "plain", FALSE, 3, TRUE, {}, FALSE, FALSE),
@@ -57,56 +59,56 @@ Catalogue == <<
   T("FittedLinearRegression", "model", TRUE, 2, TRUE, {}, FALSE, TRUE),
   T("FittedIsotonicRegression", "model", TRUE, 1, TRUE, {}, FALSE, FALSE),
   T("TweedieRegressorValidParams", "params", TRUE, 3, TRUE, {}, FALSE, TRUE),
-  T("TweedieRegressor", "model", TRUE, 3, TRUE, {}, FALSE, TRUE),
-  T("ElasticNetError", "plain", FALSE, 8, FALSE, {}, FALSE, FALSE),
-  T("ElasticNetValidParams", "params", TRUE, 4, TRUE, {}, FALSE, TRUE),
-  T("ElasticNet", "model", TRUE, 4, FALSE, {}, FALSE, TRUE),
+  T("TweedieRegressor", "model", TRUE, 5, TRUE, {}, FALSE, TRUE),
+  T("ElasticNetError", "plain", FALSE, 11, FALSE, {}, FALSE, FALSE),
+  T("ElasticNetValidParams", "params", TRUE, 5, TRUE, {}, FALSE, TRUE),
+  T("ElasticNet", "model", TRUE, 5, FALSE, {}, FALSE, TRUE),
   T("MultiTaskElasticNetValidParams", "params", TRUE, 2, TRUE, {}, FALSE, TRUE),
   T("MultiTaskElasticNet", "model", TRUE, 2, FALSE, {}, FALSE, TRUE),
-  T("LogisticRegressionParams", "params", TRUE, 5, TRUE, {}, FALSE, TRUE),
-  T("LogisticRegressionValidParams", "params", TRUE, 3, TRUE, {}, FALSE, TRUE),
-  T("FittedLogisticRegression", "model", TRUE, 3, TRUE, {}, FALSE, TRUE),
-  T("BinaryClassLabels", "model", TRUE, 2, TRUE, {}, FALSE, FALSE),
-  T("ClassLabel", "model", TRUE, 2, TRUE, {}, FALSE, FALSE),
+  T("LogisticRegressionParams", "params", TRUE, 6, TRUE, {}, FALSE, TRUE),
+  T("LogisticRegressionValidParams", "params", TRUE, 4, TRUE, {}, FALSE, TRUE),
+  T("FittedLogisticRegression", "model", TRUE, 9, TRUE, {}, FALSE, TRUE),
+  T("BinaryClassLabels", "model", TRUE, 6, TRUE, {}, FALSE, FALSE),
+  T("ClassLabel", "model", TRUE, 6, TRUE, {}, FALSE, FALSE),
   T("MultiLogisticRegressionParams", "params", TRUE, 4, TRUE, {}, FALSE, TRUE),
   T("MultiLogisticRegressionValidParams", "params", TRUE, 3, TRUE, {}, FALSE, TRUE),
   T("MultiFittedLogisticRegression", "model", TRUE, 3, TRUE, {}, FALSE, TRUE),
   T("ExitReason", "plain", FALSE, 2, TRUE, {}, FALSE, FALSE),
-  T("SeparatingHyperplane", "plain", TRUE, 2, TRUE, {}, FALSE, FALSE),
-  T("KernelMethod", "plain", TRUE, 3, TRUE, {}, FALSE, FALSE),
-  T("Kernel", "model", TRUE, 6, TRUE, {}, FALSE, TRUE),
-  T("Svm.bool", "model", TRUE, 3, TRUE, {}, FALSE, TRUE),
-  T("Svm.Pr", "model", TRUE, 2, TRUE, {}, FALSE, TRUE),
-  T("Svm.reg", "model", TRUE, 2, TRUE, {}, FALSE, TRUE),
-  T("Svm.oneclass", "model", TRUE, 2, TRUE, {}, FALSE, TRUE),
+  T("SeparatingHyperplane", "plain", TRUE, 5, TRUE, {}, FALSE, FALSE),
+  T("KernelMethod", "plain", TRUE, 7, TRUE, {}, FALSE, FALSE),
+  T("Kernel", "model", TRUE, 7, TRUE, {}, FALSE, TRUE),
+  T("Svm.bool", "model", TRUE, 5, TRUE, {}, FALSE, TRUE),
+  T("Svm.Pr", "model", TRUE, 3, TRUE, {}, FALSE, TRUE),
+  T("Svm.reg", "model", TRUE, 3, TRUE, {}, FALSE, TRUE),
+  T("Svm.oneclass", "model", TRUE, 3, TRUE, {}, FALSE, TRUE),
   T("SplitQuality", "plain", FALSE, 2, TRUE, {}, FALSE, FALSE),
-  T("DecisionTreeParams", "params", TRUE, 4, TRUE, {}, FALSE, FALSE),
-  T("DecisionTreeValidParams", "params", TRUE, 3, TRUE, {}, FALSE, FALSE),
-  T("DecisionTree", "model", TRUE, 3, TRUE, {}, FALSE, FALSE),
-  T("TreeNode", "model", TRUE, 3, TRUE, {}, FALSE, FALSE),
+  T("DecisionTreeParams", "params", TRUE, 5, TRUE, {}, FALSE, FALSE),
+  T("DecisionTreeValidParams", "params", TRUE, 4, TRUE, {}, FALSE, FALSE),
+  T("DecisionTree", "model", TRUE, 4, TRUE, {}, FALSE, FALSE),
+  T("TreeNode", "model", TRUE, 4, TRUE, {}, FALSE, FALSE),
   T("GaussianNbValidParams", "params", TRUE, 2, TRUE, {}, FALSE, TRUE),
   T("GaussianNb", "model", TRUE, 3, TRUE, {}, FALSE, TRUE),
   T("MultinomialNbValidParams", "params", TRUE, 2, TRUE, {}, FALSE, TRUE),
   T("MultinomialNb", "model", TRUE, 2, TRUE, {}, FALSE, TRUE),
-  T("FtrlError", "plain", FALSE, 7, FALSE, {}, FALSE, FALSE),
-  T("FtrlParams", "params", TRUE, 4, TRUE, {}, FALSE, TRUE),
-  T("FtrlValidParams", "params", TRUE, 2, TRUE, {}, FALSE, TRUE),
-  T("Ftrl", "model", TRUE, 2, FALSE, {}, FALSE, TRUE),
+  T("FtrlError", "plain", FALSE, 10, FALSE, {}, FALSE, FALSE),
+  T("FtrlParams", "params", TRUE, 5, TRUE, {}, FALSE, TRUE),
+  T("FtrlValidParams", "params", TRUE, 3, TRUE, {}, FALSE, TRUE),
+  T("Ftrl", "model", TRUE, 3, FALSE, {}, FALSE, TRUE),
   T("PlsRegression", "model", TRUE, 2, TRUE, {}, FALSE, TRUE),
   T("PlsCanonical", "model", TRUE, 2, TRUE, {}, FALSE, TRUE),
   T("PlsCca", "model", TRUE, 2, TRUE, {}, FALSE, TRUE),
   T("PlsSvdParams", "params", TRUE, 2, TRUE, {}, FALSE, TRUE),
   T("PcaParams", "params", FALSE, 2, TRUE, {}, FALSE, TRUE),
   T("Pca", "model", FALSE, 2, TRUE, {}, FALSE, TRUE),
-  T("GFunc", "plain", FALSE, 3, TRUE, {}, FALSE, FALSE),
+  T("GFunc", "plain", FALSE, 6, TRUE, {}, FALSE, FALSE),
   T("FastIcaValidParams", "params", TRUE, 3, TRUE, {}, FALSE, TRUE),
   T("FastIca", "model", TRUE, 3, TRUE, {}, FALSE, TRUE),
   T("TfIdfMethod", "plain", FALSE, 3, TRUE, {}, FALSE, FALSE),
   T("WhiteningMethod", "plain", FALSE, 3, TRUE, {}, FALSE, FALSE),
-  T("ScalingMethod", "plain", TRUE, 3, TRUE, {}, FALSE, FALSE),
+  T("ScalingMethod", "plain", TRUE, 7, TRUE, {}, FALSE, FALSE),
   T("NormScaler", "params", TRUE, 3, TRUE, {}, FALSE, TRUE),
-  T("LinearScalerParams", "params", TRUE, 5, TRUE, {}, FALSE, TRUE),
-  T("LinearScaler", "model", TRUE, 4, TRUE, {}, FALSE, TRUE),
+  T("LinearScalerParams", "params", TRUE, 6, TRUE, {}, FALSE, TRUE),
+  T("LinearScaler", "model", TRUE, 5, TRUE, {}, FALSE, TRUE),
   T("Whitener", "params", TRUE, 3, TRUE, {}, FALSE, TRUE),
   T("FittedWhitener", "model", TRUE, 3, TRUE, {}, FALSE, TRUE),
   T("CountVectorizerParams", "params", FALSE, 7, FALSE, {2}, TRUE, FALSE),
